@@ -8,8 +8,11 @@ RULE = ("MC_CharRef checks table-level invariants of the specification's named-r
         "expands each name into variants (exact, truncated, case-flipped) x 16 follower strings x 7 contexts (data, "
         "RCDATA, three attribute quotings, EOF inside value, unquoted followed by another attribute) and enumerates "
         "every numeric value 0..0x110000 in decimal and hex forms plus overflow/degenerate forms, all through the real "
-        "tokenizer; TLC judges every case against the L0 CharRef/HtmlTokenizer specification.")
+        "tokenizer; TLC judges every case against the L0 CharRef/HtmlTokenizer specification.  The same domain (minus texts "
+        "that would end the context) is placed in XML text and attribute values and run through xml5ever's tokenizer, "
+        "whose delivered text / attribute value is judged against L0 CharRef (Trace_XmlCharRef).")
 SPEC, CFG = "Trace_HtmlTok.tla", "Trace_HtmlTok.cfg"
+XSPEC, XCFG = "Trace_XmlCharRef.tla", "Trace_XmlCharRef.cfg"
 
 
 def classify(f, objs):
@@ -24,7 +27,10 @@ def run(tier, seed, replay=None):
         src = os.path.join(WORK, "traces", "C14-replay-in.ndjson")
         with open(src, "w") as f:
             f.write("\n".join(lines) + "\n")
-        r.gen_validate("replay", ["tok", "--replay"], SPEC, CFG, 1, classify, core.count_lines, stdin_files=[src])
+        if meta.get("spec", "").startswith("Trace_XmlCharRef"):
+            r.gen_validate("replay", ["charref", "--xml", "--replay"], XSPEC, XCFG, 1, classify, core.count_lines, stdin_files=[src])
+        else:
+            r.gen_validate("replay", ["tok", "--replay"], SPEC, CFG, 1, classify, core.count_lines, stdin_files=[src])
         return r.finish(RULE, write=False)
     quick = tier == "quick"
     names = os.path.join(WORK, "traces", "C14-names.ndjson")
@@ -38,6 +44,11 @@ def run(tier, seed, replay=None):
         r.gen_validate("named", ["charref", "--part", "named"] + q, SPEC, CFG, N if quick else N * 2, classify, core.count_lines,
                        stdin_files=[names] * (N if quick else N * 2), timeout=5000)
     r.gen_validate("numeric", ["charref", "--part", "numeric"] + q, SPEC, CFG, N, classify, core.count_lines, timeout=5000)
+    # xml5ever shares the rules: the same domain in XML text and attribute values, judged by L0 CharRef alone
+    if res["ok"]:
+        r.gen_validate("xml-named", ["charref", "--part", "named", "--xml"] + q, XSPEC, XCFG, N, classify, core.count_lines,
+                       stdin_files=[names] * N, timeout=5000)
+    r.gen_validate("xml-numeric", ["charref", "--part", "numeric", "--xml"] + q, XSPEC, XCFG, N, classify, core.count_lines, timeout=5000)
     r.assumptions = ["the specification's table is generated from Python's html.entities.html5 (independent of web_atoms)",
                      "numeric references are batched 64 per input; a wrong value anywhere in a batch rejects the batch"]
     return r.finish(RULE, exhaustive=not quick)
